@@ -301,6 +301,17 @@ def run_one(ctx, label, img, meta, ops, mnt):
         d = history.diff_trees(w, rw, "pyfatfs", "reference")
         if d:
             ctx.violation(f"{label}: final tree differs from the reference: {d[0]}", "final-tree", dict(rep, diffs=d[:8]))
+        # ... and the same tree is what a fresh mount of the device shows (no handle is open at the end of a program): the final tree of the
+        # property is the one the volume holds, not only the one in memory (C01-m6: a directory that shrank kept a stale slot behind its new end)
+        if not d and not ir.handles:
+            try:
+                fw_, _ = history.remount_walk(ir.dev.volume(), 0, mnt.get("encoding", "ibm437"), True)
+                d2 = history.diff_trees(fw_, rw, "fresh mount", "reference")
+            except Exception as e:  # noqa
+                d2 = [f"fresh mount of the device raised {type(e).__name__}: {e}"]
+            if d2:
+                ctx.violation(f"{label}: the final tree on the device differs from the reference: {d2[0]}", "final-tree-device", dict(rep, diffs=d2[:8]))
+                d = d2
         # "never refused for lack of space while clearly enough clusters are free": after the history, one file of (free - 3) clusters
         free, bpc = free_clusters(ir)
         if 6 <= free <= 4000 and not d:
@@ -341,7 +352,12 @@ def names_ok_pool(rng, enc):
 
 def scripted(i, bpc, count=0, rootent=0):
     """minimised past disagreements and targeted histories, run before the random programs"""
-    k = i % 5
+    k = i % 6
+    if k == 5:     # a directory grows by one entry into a new cluster and shrinks back to EXACTLY the clusters before (no room for an end mark): what
+        # was removed is gone from the volume too — as the last operations of the history (C01-m6)
+        n = max(1, min(bpc // 32 - 2, 254))
+        ops = [["makedir", "/D"]] + [["create", f"/D/F{q:03d}.TXT"] for q in range(n)]
+        return ops + [["writebytes", "/D/G.BIN", "67" * 40], ["remove", "/D/G.BIN"], ["listdir", "/D"], ["makedir", "/D/SUB"], ["removedir", "/D/SUB"], ["listdir", "/D"]]
     if k == 4:     # the fixed root region of FAT12/16 filled with LONG names (4 slots each) beyond its capacity: every request is either carried out
         # or refused, and the file in the first data cluster — right behind the root region — keeps its bytes (C01-m5)
         if not 0 < rootent <= 512:
@@ -374,7 +390,7 @@ def scripted(i, bpc, count=0, rootent=0):
 def run(ctx):
     vols = gen.volumes(ctx.tier)
     built = {}
-    for i in range(len(vols) * 5):
+    for i in range(len(vols) * 6):
         label, thunk = vols[i % len(vols)]
         if label in ("build32-high",) and ctx.tier == "quick":
             continue
